@@ -408,6 +408,9 @@ pub fn c18(tier: Tier, seed: u64) -> i32 {
             rep.total_violations += 1;
         }
     }
+    if tier == Tier::Thorough && std::env::var("PLV_NO_FUZZ").is_err() {
+        crate::fuzz::run(&mut rep, budget(tier, 0, 120), ncpu().min(16));
+    }
     rep.set("valid_encodings_mutated", json!(seeds.len()));
     rep.set("dictionary_strings", json!(dict.len()));
     rep.set("alphabet_size", json!(alpha.len()));
@@ -420,6 +423,8 @@ pub fn c18(tier: Tier, seed: u64) -> i32 {
 // ---------------------------------------------------------------------------------------------
 // C09
 // ---------------------------------------------------------------------------------------------
+
+const SUPPORTED_VERSION: u64 = 1;
 
 struct Content {
     name: String,
@@ -534,6 +539,42 @@ fn judge(c: &Content, m: &str, class: &'static str, proper_prefix: bool, st: &mu
                 }
             }
             Err(e) => why = Some(format!("accepted by from_snapshot_json but not by from_json: {}", e)),
+        }
+    }
+    // the harness's own reading of the accepted text (independent of how the library's package
+    // parser may normalise what it reads): version, price, stored aggregates, order sequence
+    if why.is_none() {
+        match serde_json::from_str::<Value>(m) {
+            Err(e) => why = Some(format!("accepted text is not JSON for the harness: {}", e)),
+            Ok(v) => {
+                let snap = &v["snapshot"];
+                if v["version"].as_u64() != Some(SUPPORTED_VERSION) {
+                    why = Some(format!("a package with version {} was accepted (supported: {})", v["version"], SUPPORTED_VERSION));
+                } else if snap["price"].as_u64() != Some(c.price) {
+                    why = Some(format!("the accepted text carries price {}", snap["price"]));
+                } else if (snap["visible_quantity"].as_u64(), snap["hidden_quantity"].as_u64(), snap["order_count"].as_u64())
+                    != (Some(c.stored.0), Some(c.stored.1), Some(c.stored.2 as u64))
+                {
+                    why = Some(format!(
+                        "the accepted text carries stored aggregates {}/{}/{} but the snapshot had {}/{}/{}",
+                        snap["visible_quantity"], snap["hidden_quantity"], snap["order_count"], c.stored.0, c.stored.1, c.stored.2
+                    ));
+                } else {
+                    let empty = Vec::new();
+                    let arr = snap["orders"].as_array().unwrap_or(&empty);
+                    let got: Vec<String> = arr
+                        .iter()
+                        .map(|o| {
+                            serde_json::from_value::<pricelevel::OrderType<()>>(o.clone())
+                                .map(|x| x.to_string())
+                                .unwrap_or_else(|e| format!("<unreadable: {}>", e))
+                        })
+                        .collect();
+                    if got != c.orders {
+                        why = Some("the accepted text carries a different order sequence".into());
+                    }
+                }
+            }
         }
     }
     match why {
